@@ -300,6 +300,32 @@ def gen_file(ck, cfg):
     return behs
 
 
+def gen_file_wrap():
+    """deterministic: raw pushes with a flush in the middle of a line, so that the write buffer (grown in 256 byte steps)
+    is emptied from the front and the following data wraps around its end before the next flush"""
+    behs = []
+    for via in ("c", "cxx"):
+        for first, more in ((200, 150), (250, 170), (255, 100), (56, 420)):
+            beh = [{"a": "init", "arg": {"sec": "file", "pre": []}},
+                   {"a": "open", "arg": {"m": "w", "nl": "u", "fl": 0, "buf": 1, "via": via}},
+                   {"a": "push", "arg": {"data": [(i * 3 + 1) % 251 for i in range(first)]}},
+                   {"a": "end", "arg": {"x": 0}},
+                   {"a": "push", "arg": {"data": [(i * 5 + 2) % 253 for i in range(100)]}},
+                   {"a": "flush", "arg": {"x": 0}},
+                   {"a": "push", "arg": {"data": [(i * 7 + 3) % 249 for i in range(100)]}},
+                   {"a": "push", "arg": {"data": [(i * 11 + 4) % 247 for i in range(more)]}},
+                   {"a": "end", "arg": {"x": 0}},
+                   {"a": "flush", "arg": {"x": 0}},
+                   {"a": "push", "arg": {"data": [9, 9, 9]}},
+                   {"a": "close", "arg": {"x": 0}},
+                   {"a": "open", "arg": {"m": "r", "nl": "-", "fl": 0, "buf": 1, "via": via}},
+                   {"a": "read", "arg": {"n": 300, "part": 1}},
+                   {"a": "read", "arg": {"n": 200, "part": 2}},
+                   {"a": "close", "arg": {"x": 0}}]
+            behs.append(beh)
+    return behs
+
+
 def nontrivial(recs):
     """framed: a peek delivered decoded bytes; raw: a non-empty part was received; file: the file was non-empty at a
     flush / close or a read delivered bytes."""
@@ -363,7 +389,7 @@ def run_part(ck, tier):
 
         # 2. binding B inputs meanwhile: recorded runs of the real code
         hist_f = gen_framed(ck, cfg)
-        hist_r = gen_raw(ck, cfg) + gen_file(ck, cfg)
+        hist_r = gen_raw(ck, cfg) + gen_file_wrap() + gen_file(ck, cfg)
         recs_f, _ = vlib.run_driver(exe, vlib.to_script(hist_f), timeout=1200)
         recs_r, _ = vlib.run_driver(exe, vlib.to_script(hist_r), timeout=1200)
         ev_f = strip(vlib.merge_trace(hist_f, recs_f))
